@@ -94,6 +94,14 @@ def lean_build(targets, timeout=3000):
     """`lake build <targets>` in /verif/lean under a file lock. (ok, log)."""
     with FLock("lake"):
         rc, out = sh(["lake", "build"] + list(targets), cwd=LEAN, timeout=timeout)
+        if rc != 0 and rc != 124:
+            # a second attempt only re-elaborates the modules that failed: a failure that came from machine load
+            # (a solver or heartbeat limit hit while 16 other modules were building) goes away, a real one repeats
+            rc2, out2 = sh(["lake", "build"] + list(targets), cwd=LEAN, timeout=timeout)
+            if rc2 == 0:
+                log("lean_build: first attempt failed, second succeeded (load-dependent failure); first log tail:\n"
+                    + out[-1500:])
+            rc, out = rc2, out2
     return rc == 0, out
 
 
@@ -235,6 +243,14 @@ def build_harness(bin_name, features=(), release=False, timeout=3000, extra_rust
                "RUSTFLAGS": ("--cfg %s %s" % (GUARD, extra_rustflags)).strip()}
         rc, out = sh(cmd, cwd=HARNESS, env=env, timeout=timeout)
     path = os.path.join(harness_target_dir(), "release" if release else "debug", bin_name)
+    # the front end looks for the standard library sources in an ancestor directory of the running executable that has
+    # a `pkgs` entry (sema.rs find_pkgs_directory); every harness that creates a `Sema` needs this link
+    lnk = os.path.join(BUILD, "pkgs")
+    if not os.path.lexists(lnk):
+        try:
+            os.symlink(os.path.join(REPO, "pkgs"), lnk)
+        except FileExistsError:
+            pass
     if rc == 0 and os.path.exists(path):
         return path, out
     return None, out
